@@ -1,6 +1,7 @@
 package rules
 
 import (
+	"go/constant"
 	"fmt"
 	"go/token"
 	"go/types"
@@ -26,6 +27,8 @@ func runC06(c *core.Ctx) {
 	c.RuleDoc("R06.3", "delegation uses one Mount call's (FS, subPath) pair and translates with it")
 	c.RuleDoc("R06.4", "AddMount: validate, existing directory, atomic insert")
 	c.RuleDoc("R06.5", "cross-mount rename cleanup and ordering")
+	c.RuleDoc("R06.8", "the root file system is addressed only through the route resolution")
+	c.RuleDoc("R06.9", "the cross-mount copy creates or truncates its destination")
 	c.RuleDoc("R06.7", "every capability-probing helper has a MountFS branch")
 	c.RuleDoc("R06.6", "route resolutions are asked about names that can be valid")
 	for _, p := range c.Progs {
@@ -51,6 +54,8 @@ func runC06(c *core.Ctx) {
 		r06Rename(c, p)
 		r06RouteArgs(c, p)
 		r06EveryHelperRoutes(c, p, "R06.7")
+		r06RootOnlyThroughRoutes(c, p, "R06.8")
+		r06DestinationTruncated(c, p)
 	}
 	c.Floor("R06.1", 2)
 	c.Floor("R06.2", 2)
@@ -59,6 +64,8 @@ func runC06(c *core.Ctx) {
 	c.Floor("R06.5", 3)
 	c.Floor("R06.6", 15)
 	c.Floor("R06.7", 15)
+	c.Floor("R06.8", 2)
+	c.Floor("R06.9", 1)
 }
 
 // r06Longest: stores into the captured result cells inside the Range callback.
@@ -786,4 +793,126 @@ func r06EveryHelperRoutes(c *core.Ctx, p *load.Program, rule string) {
 			c.Bad(rule, key, p.Pos(fn.Pos()), fmt.Sprintf("%s probes an optional capability of its file system but has no MountFS branch: through a generic Sub view or any MountFS that does not implement the capability itself the operation fails with ErrNotImplemented although the routed file system supports it", fname(fn)))
 		}
 	}
+}
+
+// r06RootOnlyThroughRoutes (R06.8): the field holding the root file system of the mount FS is read only inside the route
+// resolution (the MountFS method Mount and what it calls): an operation that addresses the root file system on its
+// own — a fast path for names without a separator — skips the mount table, and a mount point directly below the
+// root is opened in the root file system (its empty placeholder directory) instead of in the mounted one.
+func r06RootOnlyThroughRoutes(c *core.Ctx, p *load.Program, rule string) {
+	n := p.Named("mount", "FS")
+	if n == nil {
+		c.Hard("anchor: mount.FS")
+		return
+	}
+	st, ok := n.Underlying().(*types.Struct)
+	if !ok {
+		return
+	}
+	fsI := stdIface(p, "io/fs", "FS")
+	rootField := ""
+	for i := 0; i < st.NumFields(); i++ {
+		f := st.Field(i)
+		if _, isI := f.Type().Underlying().(*types.Interface); isI && fsI != nil && types.Implements(f.Type(), fsI) {
+			rootField = f.Name()
+		}
+	}
+	mount := methodsOf(p, n)["Mount"]
+	if rootField == "" || mount == nil {
+		c.Hard("anchor: mount.FS root field / Mount")
+		return
+	}
+	allowed := map[*ssa.Function]bool{}
+	var mark func(f *ssa.Function)
+	mark = func(f *ssa.Function) {
+		if f == nil || allowed[f] || f.Blocks == nil {
+			return
+		}
+		allowed[f] = true
+		for _, a := range f.AnonFuncs {
+			mark(a)
+		}
+		ssax.Instrs(f, func(ins ssa.Instruction) {
+			if ci, ok := ins.(ssa.CallInstruction); ok {
+				if callee := ssax.StaticCallee(ci); callee != nil && callee.Pkg == mount.Pkg {
+					mark(callee)
+				}
+			}
+		})
+	}
+	mark(mount)
+	readers := 0
+	for _, fn := range pkgFuncs(p, "mount") {
+		root := fn
+		for root.Parent() != nil {
+			root = root.Parent()
+		}
+		reads := token.NoPos
+		ssax.Instrs(fn, func(ins ssa.Instruction) {
+			if u, ok := ins.(*ssa.UnOp); ok && isLoadOfNamedField(u, n, rootField) {
+				reads = u.Pos()
+			}
+		})
+		if reads == token.NoPos {
+			continue
+		}
+		readers++
+		key := fname(fn) + "|root-fs-read-inside-route-resolution"
+		c.Check(allowed[fn] || allowed[root], rule, key, p.Pos(reads), "the root file system is read by the route resolution only",
+			fmt.Sprintf("%s reads the mount FS's root file system directly, outside the route resolution (Mount and its callees): the operation can address the root file system without consulting the mount table — a mount point directly below the root is then served from the root's placeholder directory, and a walk skips the mounted tree", fname(fn)))
+	}
+	if readers == 0 {
+		c.Hard("anchor: no reader of mount.FS.%s", rootField)
+	}
+}
+
+// r06DestinationTruncated (R06.9): the cross-mount Rename opens its destination for writing with FlagCreate and
+// FlagTruncate: without the truncation a shorter source leaves the tail of a longer existing destination behind
+// ("new" over "previous…" gives "newvious…").
+func r06DestinationTruncated(c *core.Ctx, p *load.Program) {
+	fn := p.Method("mount", "FS", "Rename")
+	if fn == nil {
+		c.Hard("anchor: mount.FS.Rename")
+		return
+	}
+	trunc, okT := flagConst(p, "FlagTruncate")
+	create, okC := flagConst(p, "FlagCreate")
+	if !okT || !okC {
+		c.Hard("anchor: FlagTruncate / FlagCreate")
+		return
+	}
+	n := 0
+	ssax.Instrs(fn, func(ins ssa.Instruction) {
+		cl, ok := ins.(*ssa.Call)
+		if !ok {
+			return
+		}
+		callee := ssax.StaticCallee(cl)
+		if callee == nil || callee.Name() != "OpenFile" || pkgPathOf(callee) != mod || len(cl.Call.Args) != 4 {
+			return
+		}
+		k, isK := ssax.ConstInt(cl.Call.Args[2])
+		if !isK || k&create == 0 {
+			return
+		}
+		n++
+		c.Check(k&trunc != 0, "R06.9", "mount.Rename|destination-opened-with-truncate", p.Pos(cl.Pos()), "the destination is created or truncated before the copy",
+			"mount.Rename opens the destination of a cross-mount copy without FlagTruncate: an existing, longer destination keeps its tail behind the copied bytes — Rename of \"new\" over \"previous, much longer contents\" leaves \"newvious, much longer contents\"")
+	})
+	if n == 0 {
+		c.Hard("anchor: creating OpenFile of the destination in mount.Rename")
+	}
+}
+
+func flagConst(p *load.Program, name string) (int64, bool) {
+	pk := p.Pkg("")
+	if pk == nil || pk.Types == nil {
+		return 0, false
+	}
+	obj, ok := pk.Types.Scope().Lookup(name).(*types.Const)
+	if !ok {
+		return 0, false
+	}
+	v, exact := constant.Int64Val(obj.Val())
+	return v, exact
 }
